@@ -485,3 +485,57 @@ func rulePrefixGuard(c *Ctx) {
 
 // ruleNilVsEmpty: placeholder filled in below (round 15).
 func ruleNilVsEmpty(c *Ctx) {}
+
+// ruleFormatterAssertionIndependent (T14-INDEP): what the formatter writes behind the account - amount, cost, balance
+// assertion - is three independent optional parts.  A read of Posting.BalanceAssertion (and of Posting.Cost) in
+// package formatter is not control dependent on a nil test of the posting's Amount: `assets:bank  = $1000` is an
+// amount-less posting with an assertion, it parses without an error (so the error-line protection does not cover it)
+// and a formatter that returns early "when there is no amount" deletes the assertion text (C04-m29).  Same fact as
+// T9-INDEP in the analyzer.
+func ruleFormatterAssertionIndependent(c *Ctx) {
+	if c.ranOnce("ruleFormatterAssertionIndependent") {
+		return
+	}
+	fpk := c.P.SSAPkg("internal/formatter")
+	n := 0
+	for _, f := range c.P.ModuleFuncs() {
+		top := f
+		for top.Parent() != nil {
+			top = top.Parent()
+		}
+		if top.Pkg != fpk {
+			continue
+		}
+		for _, b := range f.Blocks {
+			for _, ins := range b.Instrs {
+				fa, ok := ins.(*ssa.FieldAddr)
+				if !ok || !typeHasSuffix(fa.X.Type(), "ast.Posting") || fieldVarOfAddr(fa).Name() != "BalanceAssertion" {
+					continue
+				}
+				n++
+				bad := false
+				for _, cc := range controlCondsPol(b) {
+					bo, ok := cc.Cond.(*ssa.BinOp)
+					if !ok || (bo.Op != token.EQL && bo.Op != token.NEQ) {
+						continue
+					}
+					for _, pr := range [][2]ssa.Value{{bo.X, bo.Y}, {bo.Y, bo.X}} {
+						k, isK := pr[1].(*ssa.Const)
+						if !isK || !k.IsNil() {
+							continue
+						}
+						if ld, ok := pr[0].(*ssa.UnOp); ok && ld.Op == token.MUL {
+							if fa2, ok := ld.X.(*ssa.FieldAddr); ok && typeHasSuffix(fa2.X.Type(), "ast.Posting") && fieldVarOfAddr(fa2).Name() == "Amount" && sameAddr(fa2.X, fa.X, 0) {
+								bad = true
+							}
+						}
+					}
+				}
+				c.check(!bad, "T14-INDEP", funcName(f), "the balance assertion is written whether or not the posting has an amount", fa.Pos(),
+					"the read of the assertion does not depend on a nil test of the posting's amount",
+					"the formatter looks at a posting's balance assertion only where the posting's Amount is not nil: an amount-less posting with an assertion (`assets:bank  = $1000`) parses without an error, so its line is rewritten - without the assertion; the formatted journal has lost it")
+			}
+		}
+	}
+	c.census("T14-INDEP", "reads of a posting's balance assertion in the formatter", n, 1)
+}
